@@ -147,6 +147,8 @@ struct Inner {
     resp_ok: usize,
     resp_err: usize,
     trades: usize,
+    /// (exchange index, trade id) of the fills seen, in order
+    trade_ids: Vec<(usize, String)>,
     balances: usize,
     snapshots: usize,
     stalled: bool,
@@ -200,7 +202,7 @@ impl Processor<&AccountEvent> for Recorder {
                 if let (OrderState::Inactive(InactiveOrderState::OpenFailed(e)), None) = (&o.0.state, &g.first_reject) { g.first_reject = Some(format!("{e:?}")); }
                 g.log.push(Rec::Response { cid: o.0.key.cid.0.to_string(), ok });
             }
-            AccountEventKind::Trade(tr) => { g.trades += 1; g.log.push(Rec::Trade { inst: tr.instrument.index(), buy: tr.side == Side::Buy, px: tr.price, qty: tr.quantity, fee: tr.fees.fees }); }
+            AccountEventKind::Trade(tr) => { g.trades += 1; g.trade_ids.push((ev.exchange.index(), tr.id.0.to_string())); g.log.push(Rec::Trade { inst: tr.instrument.index(), buy: tr.side == Side::Buy, px: tr.price, qty: tr.quantity, fee: tr.fees.fees }); }
             other => g.log.push(Rec::Other(format!("{other:?}"))),
         }
         drop(g);
@@ -643,6 +645,14 @@ fn check_one(st: &mut St, fx: &Fixture, evs: &[Ev], exp: &[Exp], feed: Feed, o: 
     if !subset || (strict && fills != ref_fills) {
         let show = |v: &[Fill]| v.iter().map(|f| format!("{}{}@{}", if f.buy { "+" } else { "-" }, f.inst, f.px)).collect::<Vec<_>>();
         st.fail(L_CONC, input, format!("{who}: its engine saw {} fills {:?}", fills.len(), show(&fills)), format!("{} the {} fills of (dataset, k): {:?}", if strict { "exactly, in order," } else { "some of (each at most once)" }, ref_fills.len(), show(&ref_fills)));
+    }
+    // the ids of the fills are those of THIS backtest's own simulated exchange(s): each numbers its fills 0, 1, 2, .. whatever other backtests run in
+    // the process (checked where the fills seen are complete and in order)
+    if strict && fills == ref_fills {
+        let ids: Vec<(usize, String)> = o.inner.iter().flat_map(|i| i.trade_ids.iter().cloned()).collect();
+        let mut next: BTreeMap<usize, u64> = BTreeMap::new();
+        let own = ids.iter().all(|(x, id)| { let n = next.entry(*x).or_default(); let ok = *id == n.to_string(); *n += 1; ok });
+        if !own { st.fail(L_CONC, input, format!("{who}: (exchange, trade id) of the fills its engine saw: {ids:?}"), "each simulated exchange of this backtest numbers its fills 0, 1, 2, .. - as when the backtest runs alone".into()); }
     }
     // summary: computed from THIS engine's history
     let Some(sum) = &o.sum else { return; };
